@@ -110,6 +110,7 @@ var selfMutants = []selfMutant{
 	{Rule: "R-PROGRESS", File: "json/parse.go", Only: "json", Silent: true, Old: "	for {\n		if c := p.r.Peek(0); c != ' ' && c != '\\n' && c != '\\r' && c != '\\t' {\n			break\n		}\n		p.r.Move(1)\n	}\n}", New: "	n := 0\n	for c := p.r.Peek(n); c == ' ' || c == '\\n' || c == '\\r' || c == '\\t'; c = p.r.Peek(n) {\n		n++\n	}\n	p.r.Move(n)\n}", Why: "whitespace skipped with a look-ahead index and one Move (behaviour-preserving) "},
 	{Rule: "R-CURSOR", File: "json/parse.go", Only: "json", Old: "	for {\n		if c := p.r.Peek(0); c != ' ' && c != '\\n' && c != '\\r' && c != '\\t' {\n			break\n		}\n		p.r.Move(1)\n	}\n}", New: "	n := 0\n	for c := p.r.Peek(n); c != '\"'; c = p.r.Peek(n) {\n		n++\n	}\n	p.r.Move(n)\n}", Why: "look-ahead index loop that does not stop at the terminator"},
 	{Rule: "R-CURSOR", File: "json/parse.go", Only: "json", Old: "	for {\n		if c := p.r.Peek(0); c != ' ' && c != '\\n' && c != '\\r' && c != '\\t' {\n			break\n		}\n		p.r.Move(1)\n	}\n}", New: "	n := 0\n	for {\n		c := p.r.Peek(n)\n		n++\n		if c != ' ' && c != '\\n' && c != '\\r' && c != '\\t' {\n			break\n		}\n	}\n	p.r.Move(n)\n}", Why: "look-ahead index incremented past the byte that stopped the scan (moves over the terminator)"},
+	{Rule: "R-SCOPEORDER", File: "js/parse.go", Old: "		init := p.parseExpression(OpExpr)\n		if !p.consume(\"switch statement\", CloseParenToken) {\n			return\n		}\n\n		// case block\n		if !p.consume(\"switch statement\", OpenBraceToken) {\n			return\n		}\n\n		switchStmt := &SwitchStmt{Init: init}\n		parent := p.enterScope(&switchStmt.Scope, false)\n", New: "		switchStmt := &SwitchStmt{}\n		parent := p.enterScope(&switchStmt.Scope, false)\n		switchStmt.Init = p.parseExpression(OpExpr)\n		if !p.consume(\"switch statement\", CloseParenToken) {\n			return\n		}\n\n		// case block\n		if !p.consume(\"switch statement\", OpenBraceToken) {\n			return\n		}\n", Why: "switch discriminant parsed inside the switch scope"},
 	{Rule: "R-ERRSTUCK", File: "js/lex.go", Only: "js", Old: "	l.r.MoveRune() // allow to continue after error\n", New: "", Why: "error path no longer consumes the offending rune"},
 	{Rule: "R-TILE", File: "css/lex.go", Only: "css", Old: "	case ':':\n		l.r.Move(1)", New: "	case ':':\n		l.r.Skip()\n		l.r.Move(1)", Why: "css lexer skips bytes"},
 	{Rule: "R-SPELL", File: "css/lex.go", Only: "css", Old: "		case '^':\n			l.r.Move(2)\n			return PrefixMatchToken", New: "		case '^':\n			l.r.Move(2)\n			return SuffixMatchToken", Why: "'^=' returned as SuffixMatch"},
